@@ -120,10 +120,10 @@ def setDimInit (flag : Bool) : Stmt → Stmt
   | .dim vs _ d sz p => .dim vs flag d sz p
   | s => s
 
-def implicitDim (init : Bool) (name : String) : Line :=
+def implicitDim (init : Bool) (dflt : Int) (name : String) : Line :=
   let isS := name.endsWith "$"
   { num := none,
-    body := .dim [.arr (.var name isS) (.mk true [.lit (.int 11) false]) isS] init 32 [] [] }
+    body := .dim [.arr (.var name isS) (.mk true [.lit (.int 11) false]) isS] init dflt [] [] }
 
 /- NEXT without variable takes the variable of the innermost open FOR (a stack over the whole
 program in visit order) -/
@@ -242,7 +242,7 @@ def convertAstP (perm : List String → List String) (o : Options) (p0 : Prog) :
   let evs := Visit.prog p
   let dimmedAll := dimmedNames evs
   let implicit := sortStrings (perm ((arrayRefs evs).filter (fun n => !(dimmedArrays evs).contains n)))
-  let p := { p with lines := implicit.map (implicitDim o.initializeVars) ++ p.lines }
+  let p := { p with lines := implicit.map (implicitDim o.initializeVars o.defaultStrStorage) ++ p.lines }
   let evs := Visit.prog p
   let strVars := sortStrings (perm ((varNames evs).filter (fun n => n.endsWith "$" && !dimmedAll.contains n)))
   let p := if o.defaultStrStorage != 32 then
